@@ -16,7 +16,7 @@
 EXTENDS Integers, Sequences, FiniteSets
 
 CONSTANTS Clients,      \* client ids taken from the TLS certificate
-          Streams,      \* resources: stream names (= their NATS subjects)
+          Streams,      \* stream names, including the reserved internal stream "__cursors"
           AuthFirst,    \* TRUE: Subscribe / PublishAsync as repaired (fix: commits); FALSE: as pinned
           GroupAuthz    \* TRUE if the consumer-group methods check the policy (they do not, today)
 
@@ -34,9 +34,14 @@ Methods == UnaryStreamMethods \cup StreamingMethods \cup GroupMethods \cup {"Fet
 \* the action string a method asks the enforcer about (PublishAsync asks for "Publish")
 ActionOf(m) == IF m = "PublishAsync" THEN "Publish" ELSE m
 Actions == {ActionOf(m) : m \in Methods}
-CursorsStream == "__cursors"   \* SetCursor publishes to this internal stream on behalf of the caller
-Resources == Streams \cup {Star, GroupId}
-Entries == (Clients \X Resources \X Actions) \cup (Clients \X {CursorsStream} \X {"Publish"})
+CursorsStream == "__cursors"   \* reserved internal stream; SetCursor publishes to it on behalf of the caller
+UserStreams == Streams \ {CursorsStream}
+\* a stream's NATS subject is a name of its own: the resource of every stream method is the stream NAME, only
+\* PublishToSubject is authorised on the SUBJECT (stream name and subject must not be confused)
+SubjOf(s) == CASE s = "s1" -> "j1" [] s = "s2" -> "j2" [] OTHER -> "jsys"
+Subjects == {SubjOf(s) : s \in UserStreams}
+Resources == Streams \cup Subjects \cup {Star, GroupId}
+Entries == Clients \X Resources \X Actions
 
 \* a call: method, client, stream, and the request shape
 \*   resume : Subscribe with Resume = true
@@ -47,6 +52,7 @@ Calls == [m : Methods, c : Clients, s : Streams, resume : BOOLEAN, grp : BOOLEAN
 ResourceOf(call) ==
   IF call.m = "FetchMetadata" THEN Star
   ELSE IF call.m \in GroupMethods THEN GroupId
+  ELSE IF call.m = "PublishToSubject" THEN SubjOf(call.s)
   ELSE call.s
 
 Allowed(pol, call) == <<call.c, ResourceOf(call), ActionOf(call.m)>> \in pol
@@ -62,6 +68,7 @@ Unauthorised(pol, call) ==
 -----------------------------------------------------------------------------
 VARIABLES policy,      \* entries loaded in the enforcer
           policyFile,  \* entries in the policy file
+          fileOK,      \* the policy file can be loaded (FALSE: it was removed / is unreadable)
           st,          \* per stream: [exists, paused, readonly, len, plain, gsub]
           cursors,     \* per stream: stored cursor offset of the one cursor id, -1 = none
           members,     \* consumer ids that are members of the group
@@ -71,7 +78,7 @@ VARIABLES policy,      \* entries loaded in the enforcer
                        \* authorisation is enabled but the model or policy path is missing)
           obs          \* result of the last call
 
-vars == <<policy, policyFile, st, cursors, members, sessions, enforcer, obs>>
+vars == <<policy, policyFile, fileOK, st, cursors, members, sessions, enforcer, obs>>
 
 (* What decides a call: the loaded policy - and nothing when no enforcer    *)
 (* exists.  With authorisation enabled and no enforcer every call is        *)
@@ -89,8 +96,8 @@ ConsumerOf(c) == c     \* consumer id used by client c in group calls
 -----------------------------------------------------------------------------
 (* Handlers: steps in code order.                                           *)
 Steps(m) ==
-  CASE m = "CreateStream"      -> <<"Auth", "NeedAbsent", "Create">>
-    [] m = "DeleteStream"      -> <<"Auth", "NeedStream", "Delete">>
+  CASE m = "CreateStream"      -> <<"NotReserved", "Auth", "NeedAbsent", "Create">>
+    [] m = "DeleteStream"      -> <<"Auth", "NotReserved", "NeedStream", "Delete">>
     [] m = "PauseStream"       -> <<"Auth", "NeedStream", "Pause">>
     [] m = "SetStreamReadonly" -> <<"Auth", "NeedStream", "SetRO">>
     [] m = "Subscribe"         -> IF AuthFirst
@@ -136,6 +143,7 @@ DoStep(step, sg, pol, call) ==
          IF r.readonly \/ r.paused
          THEN End([sg EXCEPT !.st[s] = IF call.grp THEN [r EXCEPT !.gsub = NoSub] ELSE [r EXCEPT !.plain = r.plain - 1]], "Err")
          ELSE sg
+    [] step = "NotReserved" -> IF s = CursorsStream THEN End(sg, "Err") ELSE sg
     [] step = "NeedAbsent" -> IF r.exists THEN End(sg, "Err") ELSE sg
     [] step = "NeedStream" -> IF r.exists THEN sg ELSE End(sg, "Err")
     [] step = "NeedActive" -> IF r.paused THEN End(sg, "Err") ELSE sg
@@ -155,7 +163,10 @@ DoStep(step, sg, pol, call) ==
     [] step = "Store" -> [sg EXCEPT !.st[s].len = r.len + 1]
     [] step = "StoreIfListening" -> IF r.exists /\ ~r.paused /\ ~r.readonly
                                     THEN [sg EXCEPT !.st[s].len = r.len + 1] ELSE End(sg, "Err")
-    [] step = "StoreCursor" -> [sg EXCEPT !.cursors[s] = 0]
+    [] step = "StoreCursor" -> \* one record appended to the cursors stream
+                               [sg EXCEPT !.cursors[s] = 0,
+                                          !.st[CursorsStream].len = IF s = CursorsStream THEN r.len + 1
+                                                                    ELSE sg.st[CursorsStream].len + 1]
     [] step = "Join" -> IF ConsumerOf(call.c) \in sg.members THEN End(sg, "Err")
                         ELSE [sg EXCEPT !.members = sg.members \cup {ConsumerOf(call.c)}]
     [] step = "Leave" -> [sg EXCEPT !.members = sg.members \ {ConsumerOf(call.c)}]
@@ -176,20 +187,27 @@ DoCall(call) ==
   /\ st' = sg.st /\ cursors' = sg.cursors /\ members' = sg.members
   /\ sessions' = IF call.m = "PublishAsync" THEN sessions \cup {call.c} ELSE sessions
   /\ obs' = [a |-> "Call", res |-> sg.res]
-  /\ UNCHANGED <<policy, policyFile, enforcer>>
+  /\ UNCHANGED <<policy, policyFile, fileOK, enforcer>>
 
-\* an operator edits the policy file
+\* an operator writes the policy file
 DoEditPolicy(p) ==
-  /\ policyFile' = p
+  /\ policyFile' = p /\ fileOK' = TRUE
   /\ obs' = [a |-> "EditPolicy", res |-> "Ok"]
   /\ UNCHANGED <<policy, st, cursors, members, sessions, enforcer>>
 
-\* SIGHUP: the enforcer reloads the file
+\* the policy file disappears (removed before it is rewritten, unreadable volume ...)
+DoBreakFile ==
+  /\ fileOK' = FALSE
+  /\ obs' = [a |-> "BreakFile", res |-> "Ok"]
+  /\ UNCHANGED <<policy, policyFile, st, cursors, members, sessions, enforcer>>
+
+\* SIGHUP: the enforcer reloads the file; a reload that fails keeps what was loaded, and the NEXT
+\* reload is served like any other
 DoReload ==
   /\ enforcer
-  /\ policy' = policyFile
-  /\ obs' = [a |-> "Reload", res |-> "Ok"]
-  /\ UNCHANGED <<policyFile, st, cursors, members, sessions, enforcer>>
+  /\ policy' = IF fileOK THEN policyFile ELSE policy
+  /\ obs' = [a |-> "Reload", res |-> IF fileOK THEN "Ok" ELSE "Failed"]
+  /\ UNCHANGED <<policyFile, fileOK, st, cursors, members, sessions, enforcer>>
 
 -----------------------------------------------------------------------------
 (* What the property demands.                                               *)
@@ -199,12 +217,15 @@ DoReload ==
 Refused(o) == o.res \in {"Denied", "Err"}
 P_Call(call) ==
   Unauthorised(EffPolicy, call) => (Refused(obs') /\ World' = World)
-P_Reload == policy' = policyFile /\ World' = World
+\* a reload of a loadable file takes effect; one that cannot be loaded grants nothing new
+P_Reload == /\ fileOK => policy' = policyFile
+            /\ ~fileOK => policy' \subseteq policy
+            /\ World' = World
 P_Edit == policy' = policy /\ World' = World
 
 TypeOK ==
   /\ policy \subseteq Entries /\ policyFile \subseteq Entries
   /\ \A s \in Streams : st[s].len \in Nat /\ st[s].plain \in Nat
   /\ \A s \in Streams : cursors[s] \in {-1, 0}
-  /\ sessions \subseteq Clients /\ enforcer \in BOOLEAN
+  /\ sessions \subseteq Clients /\ enforcer \in BOOLEAN /\ fileOK \in BOOLEAN
 =============================================================================
